@@ -11,14 +11,16 @@ Theorem http_one_response_per_request : forall workers ops,
 Proof. exact t_one_response. Qed.
 Print Assumptions http_one_response_per_request.
 
-(* 2. With ONE worker the responses leave in the order the requests arrived. *)
+(* 2. With ONE worker the responses leave in the order the requests arrived.  Since the repair of F6a the server
+      hands the requests of one connection to the pool one at a time (the next one only when the previous
+      response has been sent), so each connection IS a one-worker pipeline whatever the size of the pool. *)
 Theorem http_order_single_worker : forall ops,
   let s := crun 1 cinit ops in c_sent s ++ c_running s ++ c_pending s = seq 0 (c_next s).
 Proof. exact t_order_single_worker. Qed.
 Print Assumptions http_order_single_worker.
 
-(* 2'. With the pool the server ships (2..8 workers) they do not: two pipelined requests, the second handler
-       finishes first.  Refuted - recorded as a known finding. *)
+(* 2'. The code as found handed every pipelined request to the pool at once (2..8 workers per connection): two
+       pipelined requests, the second handler finishes first.  Refuted. *)
 Theorem http_order_pool_refuted :
   c_sent (crun 2 cinit [Extract; Extract; Take; Take; Finish 1; Finish 0]) = [1; 0]%nat.
 Proof. vm_compute. reflexivity. Qed.
